@@ -347,6 +347,21 @@ func RepopulatePhysicalExpressionFunctions(expr physical.Expression) (physical.E
 						continue descriptorLoop
 					}
 				}
+				if descriptor.TypeFn != nil {
+					// Descriptors declared through TypeFn carry no argument or output types, so all of them
+					// look the same after serialization. Resolve them the way the typechecker does:
+					// by asking TypeFn about the types of the arguments, which travel with the expression.
+					argumentTypes := make([]octosql.Type, len(expr.FunctionCall.Arguments))
+					for j := range expr.FunctionCall.Arguments {
+						argumentTypes[j] = expr.FunctionCall.Arguments[j].Type
+						if descriptor.Strict {
+							argumentTypes[j] = octosql.NonNullable(argumentTypes[j])
+						}
+					}
+					if _, ok := descriptor.TypeFn(argumentTypes); !ok {
+						continue descriptorLoop
+					}
+				}
 				expr.FunctionCall.FunctionDescriptor.TypeFn = descriptor.TypeFn
 				expr.FunctionCall.FunctionDescriptor.Function = descriptor.Function
 				return expr
